@@ -259,6 +259,9 @@ class FSA:
                 continue
 
             if elist:
+                if ignore_redundant:
+                    label = [l for l in label
+                             if l not in self._out_dict[tail][head]]
                 self._out_dict[tail][head] += label
                 self._in_dict[head][tail] += label
                 for l in label:
